@@ -130,6 +130,14 @@ func Go(site string, f func()) {
 
 func Yield() { X.doOp(&op{kind: opYield}) }
 
+// Gosched is runtime.Gosched: the caller gives way until another thread has taken a step (see op.gosched).
+func Gosched() {
+	if X == nil || X.teardown {
+		return
+	}
+	X.doOp(&op{kind: opYield, gosched: true, waiting: true})
+}
+
 // SharedOp is the scheduling point in front of an access to memory that several threads share outside the
 // simulated objects (a variable captured by goroutine closures, a package-level variable, an atomic). The value
 // of such memory is not part of the state key, so the global order of these accesses is: two prefixes are
